@@ -15,6 +15,8 @@ format derives from the first data word `w`.
 import MilaModel.Model.Arc
 import MilaModel.Spec.ArcImage
 import MilaModel.Lemmas.Arc
+import MilaModel.Lemmas.ComposeArc
+import MilaModel.Lemmas.SerOracle
 
 namespace Mila.Props.C16
 open Mila Mila.Arc Mila.ArcLemmas
@@ -185,5 +187,64 @@ private def exW : BinArchive :=
 example : RangeLeaves (contentOf exW) (0xFFFFFFF0 + padOf 0) 2 ∧
     fromArchive .checked exW = .err .OutOfBounds ∧ fromArchive .wrapping exW = .err .OutOfBounds := by
   refine ⟨by decide +kernel, by decide +kernel, by decide +kernel⟩
+
+/-! ### composition with C01: the hypothesis `hC01` discharged
+
+`arc_conforming_image` asks for the archive the bin-archive parser returns; by property C01
+(`Ser.parse_conforming`) that archive exists for **every** image that conforms
+(`Spec.Image.Conforms`: tables in any order, strings anywhere in the text section, …) to a
+well-formed content `K` over a faithful codec, and it has the content `K`.  The arc layout is
+carried along (`Compose.conformsArc_parsed`).  `hraw`: `Conforms` says nothing about the bytes of
+`K.data` inside annotated cells, while the arc reader reads the image's data block as stored; so
+`K.data` has to record the stored words there as well (i.e. `K.data` *is* the data block of the
+image; `Compose.hraw_of_slice`). -/
+
+/-- **Extraction from any conforming image** (both profiles): if `img` is a conforming little-endian
+bin image of the content `K` and `K` — seen as data, string cells and `(address, label)` pairs —
+has the arc layout of `files`, then `arc::from_bytes img` returns exactly `files`. -/
+theorem arc_conforming_image_unconditional (c : Codec) (D : Str → Prop) (hf : c.Faithful D)
+    (p : Profile) (img : Bytes) (K : Spec.Image.Content) (wf : K.WF)
+    (hS : ∀ q ∈ K.strings, D q.2) (hL : ∀ q ∈ K.labels, ∀ n ∈ q.2, D n)
+    (hconf : Spec.Image.Conforms c.enc .little img K)
+    (hraw : ∀ i, K.covered i → img[0x20 + i]? = K.data[i]?)
+    {files : List (Str × Bytes)} {padded : Bool}
+    (hc : ConformsArc (Compose.arcOf K) files padded) (hN : DistinctNames files) :
+    fromBytes c p img = .ok files := by
+  have ctx : Ser.Ctx c D .little img K := ⟨hconf, wf, hf, hS, hL⟩
+  obtain ⟨b, hb, hp⟩ := Ser.parse_conforming ctx
+  exact arc_conforming_image c p img b hb (Compose.conformsArc_parsed ctx hp hraw hc) hN
+
+/-! Non-vacuity of the composed theorem: the image the bin-archive writer produces for `exA`
+(identity codec; the 129 bytes are spelled out because `List.mergeSort` does not reduce in the
+kernel), its content with the data block as stored, and the arc layout of `exFiles`. -/
+
+private def idc : Codec := ⟨fun s => some s, id⟩
+
+private def exImg : Bytes :=
+  [129, 0, 0, 0, 40, 0, 0, 0, 2, 0, 0, 0, 4, 0, 0, 0, 0, 0, 0, 0, 0, 0, 0, 0, 0, 0, 0, 0, 0, 0, 0, 0,
+   -- data block (string cells 4 and 20 hold text offsets 93 and 95)
+   2, 0, 0, 0, 93, 0, 0, 0, 7, 0, 0, 0, 3, 0, 0, 0, 36, 0, 0, 0, 95, 0, 0, 0, 9, 0, 0, 0, 0, 0, 0, 0,
+   240, 255, 255, 255, 10, 11, 12, 0,
+   -- pointer table, label table
+   4, 0, 0, 0, 20, 0, 0, 0,
+   0, 0, 0, 0, 0, 0, 0, 0, 0, 0, 0, 0, 2, 0, 0, 0, 4, 0, 0, 0, 8, 0, 0, 0, 36, 0, 0, 0, 2, 0, 0, 0,
+   -- text: "X", "Count", "Info", "a", "b"
+   88, 0, 67, 111, 117, 110, 116, 0, 73, 110, 102, 111, 0, 97, 0, 98, 0]
+
+private def exK : Spec.Image.Content :=
+  ⟨BinArchive.slice exImg 0x20 exA.data.length, exA.text, [], exA.labels⟩
+
+example : fromBytes idc .checked exImg = .ok exFiles ∧ fromBytes idc .wrapping exImg = .ok exFiles := by
+  have hf : idc.Faithful (fun s => (0 : UInt8) ∉ s) := fun s hs => ⟨s, rfl, hs, rfl⟩
+  have wf : exK.WF := ⟨by decide +kernel, by decide +kernel, by decide +kernel, by decide +kernel,
+    by decide +kernel⟩
+  have hconf : Spec.Image.Conforms idc.enc .little exImg exK :=
+    Ser.conformsCheck_sound _ _ _ _ (by decide +kernel)
+  have hraw := Compose.hraw_of_slice (f := exImg) wf (by decide +kernel)
+  have hc : ConformsArc (Compose.arcOf exK) exFiles false := ⟨0, 4, by decide +kernel⟩
+  exact ⟨arc_conforming_image_unconditional idc _ hf .checked exImg exK wf (by decide +kernel)
+      (by decide +kernel) hconf hraw hc (by decide +kernel),
+    arc_conforming_image_unconditional idc _ hf .wrapping exImg exK wf (by decide +kernel)
+      (by decide +kernel) hconf hraw hc (by decide +kernel)⟩
 
 end Mila.Props.C16
